@@ -50,6 +50,10 @@ type SessionStore struct {
 	w    *World
 	salt string
 	Hook func(op string)
+	// NilWhenAbsent makes ReadState answer (nil, nil) for a request that names no stored session —
+	// the ClientStateReadWriter contract allows a nil state, and session libraries that keep nothing
+	// for anonymous visitors behave like that.
+	NilWhenAbsent bool
 }
 
 // NewStandaloneSessionStore returns a session store usable concurrently without a World.
@@ -92,6 +96,9 @@ func (s *SessionStore) ReadState(r *http.Request) (authboss.ClientState, error) 
 			}
 		}
 		s.mu.Unlock()
+	}
+	if s.NilWhenAbsent && st.sid == "" {
+		return nil, nil
 	}
 	return st, nil
 }
